@@ -381,6 +381,18 @@ def check_eig_slots(prog, rep):
                     if isinstance(t.elts[1], ast.Name):
                         col.add(t.elts[1].id)
         row_txt = set(row) | {'%s[0]' % qname}
+        # single-assignment temporaries (a hoisted leg, a named slice) are looked through
+        tdefs = {}
+        for st in ast.walk(f):
+            if isinstance(st, ast.Assign) and len(st.targets) == 1 and isinstance(
+                    st.targets[0], ast.Name):
+                tdefs.setdefault(st.targets[0].id, []).append(st.value)
+
+        def resolve(e, depth=0):
+            if isinstance(e, ast.Name) and len(tdefs.get(e.id, [])) == 1 and depth < 3 and \
+                    e.id not in row and e.id not in col:
+                return resolve(tdefs[e.id][0], depth + 1)
+            return e
         for st in ast.walk(loop):
             if not (isinstance(st, ast.Assign) and len(st.targets) == 1 and isinstance(
                     st.targets[0], ast.Subscript)):
@@ -389,9 +401,12 @@ def check_eig_slots(prog, rep):
             base = unparse(t.value)
             if base == 'resw':
                 n += 1
-                idx = t.slice
-                ok = isinstance(idx, ast.Call) and unparse(idx.func) == 'a.legs[0].get_slice' and \
-                    len(idx.args) == 1 and unparse(idx.args[0]) in row_txt
+                idx = resolve(t.slice)
+                fn = unparse(resolve(idx.func.value)) + '.get_slice' if isinstance(
+                    idx, ast.Call) and isinstance(idx.func, ast.Attribute) and \
+                    idx.func.attr == 'get_slice' else None
+                ok = fn == 'a.legs[0].get_slice' and len(idx.args) == 1 and (
+                    unparse(idx.args[0]) in row_txt or unparse(resolve(idx.args[0])) in row_txt)
                 rep.instance('FACT-eig-slot', {'function': qn, 'store': unparse(t)[:60], 'ok': ok})
                 if not ok:
                     rep.violation('FACT-eig-slot', m, qn, 'eigenvalue-slot:' + unparse(idx)[:40],
@@ -402,7 +417,7 @@ def check_eig_slots(prog, rep):
                                   st.lineno)
             elif base == 'resv._data':
                 n += 1
-                ok = unparse(t.slice) in row_txt
+                ok = unparse(t.slice) in row_txt or unparse(resolve(t.slice)) in row_txt
                 rep.instance('FACT-eig-slot', {'function': qn, 'store': unparse(t)[:60], 'ok': ok})
                 if not ok:
                     rep.violation('FACT-eig-slot', m, qn, 'eigenvector-slot:' + unparse(t.slice)[:40],
